@@ -437,12 +437,19 @@ Proof. intros U; inv U; gts; reflexivity. Qed.
 Ltac resp_cases H :=
   unfold resp_th, onway, lock_pc in H; dsj.
 
+Ltac onway_solve :=
+  first [ left; left; reflexivity
+        | left; right; left; eexists; reflexivity
+        | left; right; right; left; eexists; reflexivity
+        | left; right; right; right; reflexivity
+        | right; reflexivity ].
+
 Ltac resp_go Hr Hm :=
   unfold resp_th, onway, lock_pc in Hr |- *; rewrite ?Hm in Hr; dsj; pc_inj; gts;
-  first [ solve [left; split; [eauto 8|intros; discriminate]]
-        | solve [right; right; left; auto]
-        | solve [right; right; right; eauto 8]
-        | solve [right; left; eauto 8]
+  first [ solve [right; right; left; split; assumption]
+        | solve [left; split; [onway_solve|intros; discriminate]]
+        | solve [right; right; right; split; [assumption|split; [eauto|first [solve [left; eauto]|solve [right; eauto]]]]]
+        | solve [right; left; split; [assumption|split; [eauto|reflexivity]]]
         | idtac ].
 
 Lemma resp_self s t th e s' th' gt st :
@@ -595,9 +602,9 @@ Proof.
   destruct (valid_st_idx _ Hv) as [Hlt Hidx].
   inversion R; subst; try (destruct He as [He|[i0 He]]; discriminate He).
   (* steps that leave status and condition queues alone *)
-  all: try (apply Hgen; [gts; reflexivity|gts; exact Hq|];
+  all: try (apply Hgen; [autorewrite with sync; reflexivity|autorewrite with sync in Hq |- *; exact Hq|];
             intros z gz thz -> Gz Bz Cz; rewrite Hgt in Gz; inv Gz; rewrite Hth in Bz; inv Bz;
-            eapply (resp_self _ _ _ _ _ _ _ _ I Hth Hg R He Hth'); gts; auto;
+            eapply (resp_self _ _ _ _ _ _ _ _ I Hth Hg R He Hth'); autorewrite with sync; auto;
             [intros _ c0 Hc0; congruence|intros i0 c0 u0 Hc0 E0; discriminate E0]; fail).
   - (* unl *)
     match goal with U : urel _ _ _ _ _ _ _ |- _ =>
@@ -761,90 +768,3 @@ Proof.
     split; [reflexivity|]. rewrite (disc_MOut_head _ Hd). reflexivity.
 Qed.
 
-(* ------------------------------------------------------------------------------------------ *)
-(** * the exchange invariant for mailbox programs *)
-
-Fixpoint mbox_out (p : list action) : bool :=
-  match p with
-  | [] => true
-  | AFeWL st :: APut _ :: AFeMS st' :: r => (st =? 0) && (st' =? 1) && mbox_out r
-  | AFeWL st :: ATake :: AFeMS st' :: r => (st =? 1) && (st' =? 0) && mbox_out r
-  | ALock :: AUnlock :: r => mbox_out r
-  | _ => false
-  end.
-
-(** a program at any position inside a mailbox program *)
-Definition mbp (p : list action) : bool :=
-  match p with
-  | APut _ :: AFeMS st :: r => (st =? 1) && mbox_out r
-  | ATake :: AFeMS st :: r => (st =? 0) && mbox_out r
-  | AFeMS st :: r => valid_st st && mbox_out r
-  | AUnlock :: r => mbox_out r
-  | _ => mbox_out p
-  end.
-
-Lemma mbox_out_mbp p : mbox_out p = true -> mbp p = true.
-Proof. destruct p as [|[] r]; cbn; auto; discriminate. Qed.
-
-Definition slot_list (g : gstate) : list Z := match slot g with Some v => [v] | None => [] end.
-
-Definition coh (g : gstate) : Prop :=
-  (festat (base g) = 0 /\ slot g = None) \/ (festat (base g) = 1 /\ slot g <> None).
-(** between the local action and the status write the status is "behind" the slot *)
-Definition anti (g : gstate) (st : Z) : Prop :=
-  (st = 1 /\ festat (base g) = 0 /\ slot g <> None) \/ (st = 0 /\ festat (base g) = 1 /\ slot g = None).
-
-Definition dirty (gt : gthread) (th : thread) (st : Z) : Prop :=
-  exists r, prog gt = AFeMS st :: r /\ (pend gt = false \/ main th = FeWrite st).
-
-Record XInv (g : gstate) : Prop := {
-  x_mb : forall t gt, nth_error (gth g) t = Some gt -> mbp (prog gt) = true;
-  x_flow : uflow g = false /\ oflow g = false;
-  x_perm : Permutation (produced g) (slot_list g ++ consumed g);
-  x_coh : coh g \/ exists t gt th st, nth_error (gth g) t = Some gt /\ get_thread (base g) t = Some th /\
-                                      dirty gt th st;
-  x_dirty : forall t gt th st, nth_error (gth g) t = Some gt -> get_thread (base g) t = Some th ->
-            dirty gt th st -> anti g st;
-  x_sec : forall t gt th, nth_error (gth g) t = Some gt -> get_thread (base g) t = Some th ->
-          (pend gt = true -> forall st r, prog gt = AFeWL st :: r -> main th = Done 0 -> festat (base g) = st) /\
-          (pend gt = false -> forall v r, prog gt = APut v :: r -> festat (base g) = 0) /\
-          (pend gt = false -> forall r, prog gt = ATake :: r -> festat (base g) = 1) }.
-
-(** threads inside their full/empty section own the lock *)
-Definition insec (gt : gthread) (th : thread) : Prop :=
-  (pend gt = false /\ head_mode (prog gt) = MFe) \/
-  (pend gt = true /\ (exists st r, prog gt = AFeWL st :: r) /\ main th = Done 0) \/
-  (exists st, main th = FeWrite st).
-
-Lemma insec_own gt th : tinv1 th -> grel gt th -> insec gt th -> own th = true.
-Proof.
-  intros T Hg [[A B]|[(A & (st & r & B) & C)|[st A]]].
-  - unfold grel in Hg. rewrite A, B in Hg. destruct Hg as [_ Hg]. exact Hg.
-  - unfold grel in Hg. rewrite A, B, C in Hg. unfold lock_pc in Hg. dsj; pc_inj; try discriminate; auto.
-  - apply (t1_need _ T). rewrite A. reflexivity.
-Qed.
-
-Lemma dirty_insec gt th st : dirty gt th st -> insec gt th.
-Proof. intros (r & A & [B|B]); [left; rewrite A; auto|right; right; eauto]. Qed.
-
-Lemma mbox_out_disc : forall q, mbox_out q = true -> disc MOut q = true.
-Proof.
-  fix IH 1. intros [|a q]; [reflexivity|]. destruct a as [st|st| | |v|]; cbn; try discriminate.
-  - destruct q as [|b q]; [discriminate|].
-    destruct b as [st1|st1| | |v1|]; try discriminate;
-      (destruct q as [|c q]; [discriminate|]; destruct c as [st2|st2| | |v2|]; try discriminate);
-      intros H; apply andb_prop in H; destruct H as [H H3]; apply andb_prop in H; destruct H as [H1 H2];
-      apply Z.eqb_eq in H1; apply Z.eqb_eq in H2; subst; cbn; apply IH; exact H3.
-  - destruct q as [|b q]; [discriminate|]. destruct b; try discriminate. intros H. cbn. apply IH. exact H.
-Qed.
-
-Lemma mbp_wfp p : mbp p = true -> wfp p = true.
-Proof.
-  unfold wfp. destruct p as [|[st|st| | |v|] q]; cbn [mbp head_mode]; intros H;
-    try (apply mbox_out_disc in H; exact H).
-  - apply andb_prop in H. destruct H as [H1 H2]. cbn. rewrite H1. cbn. apply mbox_out_disc. exact H2.
-  - destruct q as [|[] q']; try discriminate.
-    apply andb_prop in H. destruct H as [H1 H2]. apply Z.eqb_eq in H1. subst. cbn. apply mbox_out_disc. exact H2.
-  - destruct q as [|[] q']; try discriminate.
-    apply andb_prop in H. destruct H as [H1 H2]. apply Z.eqb_eq in H1. subst. cbn. apply mbox_out_disc. exact H2.
-Qed.
